@@ -303,7 +303,7 @@ def makeTuple (gp : GroupPaths) (path : String) (fd : FieldData) : GroupPaths ×
 /-- insertion sort by `gr_idx`, stable (what `sort_by` guarantees) -/
 def insertByGr (x : FieldContainer) : List FieldContainer → List FieldContainer
   | [] => [x]
-  | y :: ys => if x.grIdx < y.grIdx then x :: y :: ys else y :: insertByGr x ys
+  | y :: ys => if x.grIdx ≤ y.grIdx then x :: y :: ys else y :: insertByGr x ys
 
 def sortByGr (xs : List FieldContainer) : List FieldContainer := xs.foldr insertByGr []
 
